@@ -87,10 +87,6 @@ def match_known(prop: str, ob: Ob, known: dict):
 def finish(res: Result, tier: str, t0: float, level: str = "other") -> int:
     """Print the verdict, write evidence, return the exit code (0/1)."""
     prop = res.prop
-    # floors: a rule that matches too little passes vacuously -> analysis broken
-    for name, (m, mn) in res.floors.items():
-        if m < mn:
-            raise AnalysisError(f"floor not met for {name}: {m} < {mn} (rule would pass vacuously)")
     known = load_known()
     viols, knowns = [], []
     for ob in res.obligations:
@@ -100,6 +96,12 @@ def finish(res: Result, tier: str, t0: float, level: str = "other") -> int:
                 knowns.append((ob, f))
             else:
                 viols.append(ob)
+    # floors: a rule that matches too little passes vacuously -> analysis broken.  A violation that
+    # was found is still a violation, so floors only stop a run that would otherwise pass.
+    if not viols:
+        for name, (m, mn) in res.floors.items():
+            if m < mn:
+                raise AnalysisError(f"floor not met for {name}: {m} < {mn} (rule would pass vacuously)")
     by_rule: dict[str, list[int]] = {}
     for ob in res.obligations:
         r = by_rule.setdefault(ob.rule, [0, 0])
